@@ -103,6 +103,44 @@ def run(ck):
             gated12.append(okk)
             ck.ob(R12, f"{f12.fid} :: gated", okk, "check_not_finalized() dominates every normal exit" if okk else
                   "this mutator can complete without consulting check_not_finalized()", f12, f12.node)
+    R13 = ck.rule('R08.13', "a block's long-lived task ends with the synchronous stop(): every task a start() method "
+                  "stores on the block is cancelled - or sent its stop sentinel - on every path of that class's "
+                  "stop(), so that it does not outlive the simulation when the asynchronous clean-up is disabled "
+                  "(stop_timeout <= 0 skips stop_async)", 'M0', 2)
+    with ck.section('R08.13'):
+        n13 = 0
+        for c13 in prog.pkg_classes():
+            st13 = c13.methods.get('start')
+            if st13 is None or c13.module.name == 'demo':
+                continue
+            for x in own_nodes(st13.node):
+                if isinstance(x, ast.Assign) and len(x.targets) == 1 and isinstance(x.targets[0], ast.Attribute) \
+                        and norm(x.targets[0].value) == 'self' and isinstance(x.value, ast.Call) and \
+                        call_name(x.value) in ('_create_monitored_task', 'create_task'):
+                    attr = x.targets[0].attr
+                    n13 += 1
+                    sp13 = c13.methods.get('stop')
+                    if sp13 is None:
+                        ck.ob(R13, f"{c13.qual} :: self.{attr} ended by stop()", False,
+                              f"{c13.qual}.start() stores a task in self.{attr} but the class has no stop(): the task "
+                              "is ended by stop_async() only, which is skipped when stop_timeout <= 0 - it goes on "
+                              "running (re-sending, polling) after the simulation has stopped", st13, x)
+                        continue
+                    g13 = ck.cfg(sp13.fid, 'M0')
+                    enders = nodes_where(g13, lambda n: any(
+                        (call_name(c) == 'cancel' and recv(c) == f'self.{attr}') or
+                        (call_name(c) == 'put_nowait' and c.args and is_const(c.args[0], None))
+                        for c in node_calls(n)))
+                    # a path on which the handle is known to be None has no task to end
+                    none13 = [n for n in g13.nodes if n.kind == 'branch' and (
+                        (norm(n.test.ast) in (f'self.{attr} is not None', f'self.{attr}') and not n.polarity) or
+                        (norm(n.test.ast) == f'self.{attr} is None' and n.polarity))]
+                    wit13 = g13.path_avoiding(g13.entry, [g13.exit], avoid=enders + none13) if enders else [g13.entry]
+                    ck.ob(R13, f"{c13.qual} :: self.{attr} ended by stop()", bool(enders) and wit13 is None,
+                          f"every path of stop() cancels self.{attr} or sends the stop sentinel" if enders and wit13 is None
+                          else f"stop() can return without ending the task in self.{attr}: with stop_timeout <= 0 it "
+                          "outlives the simulation", sp13, sp13.node, witness=path_witness(g13, wit13 if enders else None))
+        ck.need(R13, n13 >= 2, f"only {n13} stored task(s) found in start() methods (2 confirmed by hand)")
     with ck.section('R08.1'):
         g = ck.cfg(rf.fid, 'M1')
         # ------------------------------------------------------------------ R08.1
